@@ -482,3 +482,129 @@ func firstFew(m map[string]int) map[string]int {
 	}
 	return out
 }
+
+const tShared = "TestVerifC05SharedViews"
+
+type sharedCase struct {
+	NShard      int  `json:"nshard"`
+	Materialize bool `json:"materialize"`
+	A           int  `json:"a"`
+	B           int  `json:"b"`
+}
+
+// sharedPlacement runs Cogroup(A(s), B(s)) with an observer on the cogroup and returns key -> shard.
+func sharedPlacement(sess *runner.Session, c sharedCase) (m map[string]int, nshard int, err error) {
+	defer func() {
+		if r := recover(); r != nil {
+			_, stack := vt.PanicSig(r)
+			err = fmt.Errorf("panic: %v\n%s", r, stack)
+		}
+	}()
+	spec := progen.EnumShared(c.NShard, 60, c.Materialize, c.A, c.B)
+	spec.Nodes = append(spec.Nodes, progen.Node{Op: "writerfunc", In: []int{spec.Root()}})
+	if e := progen.Annotate(spec); e != nil {
+		return nil, 0, fmt.Errorf("harness: %v", e)
+	}
+	spec.RunID = runner.NewRunID()
+	defer progen.DropEnv(spec.RunID)
+	var runErr error
+	ok := runner.WithTimeout(180*time.Second, func() {
+		res, e := sess.Run(context.Background(), spec)
+		if e != nil {
+			runErr = e
+			return
+		}
+		res.Discard(context.Background())
+	})
+	if !ok {
+		return nil, 0, fmt.Errorf("run did not finish within 180s")
+	}
+	if runErr != nil {
+		return nil, 0, fmt.Errorf("run failed: %v", runErr)
+	}
+	root := spec.Root()
+	nshard = spec.Nodes[root].Shards
+	m = map[string]int{}
+	seen := map[int]bool{}
+	for _, st := range progen.EnvOf(spec.RunID).StreamsOf(root) {
+		if st.Ends == 0 || seen[st.Shard] {
+			continue
+		}
+		seen[st.Shard] = true
+		for _, r := range st.Rows {
+			k := progen.RowKey(r[:1])
+			if sh, ok := m[k]; ok {
+				return nil, nshard, fmt.Errorf("Cogroup(%s(s), %s(s)) into %d shards: key %s is emitted in shard %d and in shard %d", progen.SharedKinds[c.A], progen.SharedKinds[c.B], nshard, k, sh, st.Shard)
+			}
+			m[k] = st.Shard
+		}
+	}
+	return m, nshard, nil
+}
+
+// TestVerifC05SharedViews: consumers that shuffle one shared sub-slice in different ways (other shard
+// counts, other partitioners, a wider key through a Prefixed view) must not affect where the final
+// Cogroup places a key.
+func TestVerifC05SharedViews(t *testing.T) {
+	if os.Getenv("VERIF_C05_CELLS") != "" {
+		t.Skip()
+	}
+	rec := vt.New("C05", "shared-subslice-views",
+		fmt.Sprintf("complete enumeration of Cogroup(A(s), B(s)) over one shared sub-slice for every ordered pair of consumer kinds %v (other shard counts, custom partitioners, a two-column key through a Prefixed view) x shard counts {2,3} x {plain, Materialize}; the Cogroup's output is observed per shard on the local executor; oracle: every key is emitted in exactly one shard and the key->shard map is the same for all programs with the same number of output shards; non-trivial = A != B; distinct by case", progen.SharedKinds))
+	sess := runner.Start(runner.Config{Exec: "local", Parallelism: 4})
+	defer sess.Close()
+	run := func(c sharedCase, refs map[int]map[string]int) error {
+		m, n, err := sharedPlacement(sess, c)
+		if err != nil {
+			return err
+		}
+		if ref, ok := refs[n]; ok {
+			return sameMap(ref, m, fmt.Sprintf("in Cogroup(%s(s), %s(s))", progen.SharedKinds[c.A], progen.SharedKinds[c.B]))
+		}
+		refs[n] = m
+		return nil
+	}
+	docs, only := vt.Replays(tShared)
+	for _, d := range docs {
+		var c sharedCase
+		if err := json.Unmarshal(d.Case, &c); err != nil {
+			t.Fatal(err)
+		}
+		rec.Case(true, vt.Hash(string(d.Case)), "replay")
+		refs := map[int]map[string]int{}
+		run(sharedCase{NShard: c.NShard}, refs) // reference: Cogroup(s, s)
+		if err := run(c, refs); err != nil {
+			rec.Violation(tShared, "placement:shared", err.Error(), c)
+			t.Errorf("replay: %v", err)
+		}
+	}
+	if only || t.Failed() {
+		return
+	}
+	refs := map[int]map[string]int{}
+	idx := 0
+	reported := false
+	for _, nshard := range []int{2, 3} {
+		for _, mat := range []bool{false, true} {
+			for a := range progen.SharedKinds {
+				for b := range progen.SharedKinds {
+					idx++
+					c := sharedCase{nshard, mat, a, b}
+					if !(a == 0 && b == 0) && !vt.Mine(idx) {
+						continue // Cogroup(s, s) is every shard's reference
+					}
+					rec.Case(a != b, vt.Hash("sharedviews", nshard, mat, a, b), "pair:"+progen.SharedKinds[a]+"+"+progen.SharedKinds[b])
+					if a != b && rec.WantSample("sharedviews") {
+						rec.Sample("sharedviews", map[string]interface{}{"case": c, "a": progen.SharedKinds[a], "b": progen.SharedKinds[b]})
+					}
+					if err := run(c, refs); err != nil && !reported {
+						reported = true
+						rec.Violation(tShared, "placement:shared", err.Error(), c)
+						t.Errorf("%+v: %v", c, err)
+					}
+				}
+			}
+		}
+	}
+	rec.Exhaustive = true
+}
